@@ -1216,6 +1216,18 @@ def rule_format_only_on_literals(cm, rep, rid):
                 v = c.class_attrs.get(e.attr)
                 if v is not None:
                     return isinstance(v, ast.Constant) and isinstance(v.value, str)
+        if isinstance(e, ast.Subscript) and isinstance(e.value, ast.Name):
+            # an entry of a module-level table of string literals that nothing changes
+            r = cm.repo.resolve_name(f, e.value.id)
+            if r and r[0] == 'var' and isinstance(r[2], (ast.Dict, ast.Tuple, ast.List)):
+                vals = r[2].values if isinstance(r[2], ast.Dict) else r[2].elts
+                tree = f.module.tree
+                changed = any(isinstance(x, ast.Subscript) and isinstance(x.ctx, (ast.Store, ast.Del)) and is_name(x.value, e.value.id)
+                              for x in ast.walk(tree)) or \
+                    any(isinstance(x, ast.Call) and isinstance(x.func, ast.Attribute) and is_name(x.func.value, e.value.id) and
+                        x.func.attr in ('update', 'pop', 'clear', 'setdefault', 'popitem', 'append', 'extend', 'insert', 'remove') for x in ast.walk(tree)) or \
+                    sum(1 for x in ast.walk(tree) if isinstance(x, ast.Name) and x.id == e.value.id and isinstance(x.ctx, ast.Store)) != 1
+                return bool(vals) and not changed and all(isinstance(v, ast.Constant) and isinstance(v.value, str) for v in vals)
         return False
     for f in cm.repo.all_functions(('yp_generator',)):
         if f.cls is None or gen not in cm.repo.mro(f.cls) and f.cls is not gen:
